@@ -465,11 +465,16 @@ func init() {
 			ArchiveID: int(a.num("archive", -1)), TextOut: to,
 		}
 		items := itemsOracle(s, a["base"], a["item"], a["src"])
+		liveDone := s.startLive(a)
 		t0 := time.Now().Unix()
 		err, panicked := runCmd(c.Execute)
 		t1 := time.Now().Unix()
 		recs, nows := parseOutput(readOut())
-		s.echo(fmt.Sprintf("%s nows=%s items=%s clock=%d,%d", strings.Join(tk, " "), csvOrDash(nows), items, t0, t1))
+		liveAt := ""
+		if a["live"] != "" {
+			liveAt = " liveat=" + <-liveDone
+		}
+		s.echo(fmt.Sprintf("%s nows=%s items=%s clock=%d,%d%s", strings.Join(tk, " "), csvOrDash(nows), items, t0, t1, liveAt))
 		s.emit("clisumcopy", statusOf(err, panicked), recs)
 	}
 	handlers["clisumdiff"] = func(s *sess, tk []string) {
